@@ -9,7 +9,7 @@ import (
 	"verif/ref"
 )
 
-var c02Shapes = []string{"modify", "grow", "shrink", "spill", "multispill", "rollback", "rollback-spill", "lockonly", "create-big", "block-edge", "nosync", "mixed"}
+var c02Shapes = []string{"modify", "grow", "shrink", "spill", "multispill", "rollback", "rollback-spill", "lockonly", "create-big", "block-edge", "nosync", "spill-beyond", "mixed"}
 
 func init() {
 	register(&core.Check{
@@ -23,7 +23,7 @@ func init() {
 			if tier == "thorough" {
 				return 6000
 			}
-			return 360
+			return 390
 		},
 		EvalCounter: "programs",
 		Run:         runC02,
@@ -31,7 +31,7 @@ func init() {
 			return map[string]int{
 				"commit_delete": 20, "commit_truncate": 20, "commit_persist": 20,
 				"multi_segment": 5, "rollback_after_spill": 5, "late_truncate": 3, "block_cross": 3,
-				"create_from_nothing": 3, "ltx_decoded": 100, "lockonly": 3, "tx_events_seen": 50,
+				"create_from_nothing": 3, "spilled_beyond_commit": 5, "ltx_decoded": 100, "lockonly": 3, "tx_events_seen": 50,
 			}
 		},
 	})
@@ -173,6 +173,24 @@ func runC02(c *core.Case) {
 			if c.Rng.IntN(3) == 0 {
 				spec.SpillAfter = 3
 			}
+		case "spill-beyond":
+			// the transaction grows the file through a spill and frees the new
+			// pages again: the commit size is below the highest page written
+			randDirty(4 + c.Rng.IntN(8))
+			spec.SpillAfter = 2 + c.Rng.IntN(3)
+			spec.MultiSpill = c.Rng.IntN(2) == 0
+			spec.SpillBeyond = uint32(1 + c.Rng.IntN(6))
+			switch c.Rng.IntN(3) {
+			case 0:
+				spec.NewPageN = cur + uint32(c.Rng.IntN(3))
+			case 1:
+				if cur > 3 {
+					spec.NewPageN = cur - uint32(1+c.Rng.IntN(2))
+				}
+			}
+			if c.Rng.IntN(4) == 0 {
+				spec.Outcome = "rollback"
+			}
 		case "nosync":
 			randDirty(1 + c.Rng.IntN(5))
 			spec.NRec = "nosync"
@@ -240,6 +258,9 @@ func runC02(c *core.Case) {
 			if spec.NewPageN < cur {
 				c.Count("late_truncate", 1)
 			}
+			if spec.SpillBeyond > 0 {
+				c.Count("spilled_beyond_commit", 1)
+			}
 			if (cur <= 256) != (spec.NewPageN <= 256) || (cur <= 512) != (spec.NewPageN <= 512) {
 				c.Count("block_cross", 1)
 			}
@@ -257,7 +278,7 @@ func runC02(c *core.Case) {
 		} else {
 			c.Count("lockonly", 1)
 		}
-		c.Distinct(fmt.Sprintf("%s/%s/ps%d/sec%d/%s/%s->%s/seg%d/%s", sh, mode, ps, sector, spec.Outcome, sizeClass(cur), sizeClass(spec.NewPageN), segs, spec.NRec))
+		c.Distinct(fmt.Sprintf("%s/%s/ps%d/sec%d/%s/%s->%s/seg%d/%s/b%v", sh, mode, ps, sector, spec.Outcome, sizeClass(cur), sizeClass(spec.NewPageN), segs, spec.NRec, spec.SpillBeyond > 0))
 		if i == 1 {
 			c.Sample(map[string]any{"page_size": ps, "sector": sector, "mode": mode, "program": spec, "pos_after": out.Pos.String()})
 		}
